@@ -1,5 +1,459 @@
-//! C03 — not built yet.
-#![allow(unused)]
+//! C03 — samplers draw from the law they describe.
+#![allow(clippy::type_complexity)]
+use crate::libm;
 use crate::util::*;
-pub fn gen(_tier: &str, _seed: u64, _outdir: &str) { eprintln!("C03: gen not implemented"); std::process::exit(3); }
-pub fn oracle(_tier: &str, _seed: u64) -> (u64, Vec<Finding>) { eprintln!("C03: oracle not implemented"); std::process::exit(3); }
+use compute::distributions::*;
+use compute::linalg::{Matrix, Vector};
+use std::sync::mpsc;
+use std::time::Duration;
+
+#[path = "c03_ref.rs"]
+mod refs;
+use refs::*;
+
+// ------------------------------------------------------------------------------------------------------------
+// distributions as data (parameters only), so that a regime can be rebuilt inside a worker thread
+// ------------------------------------------------------------------------------------------------------------
+#[derive(Clone, Debug, PartialEq)]
+pub enum D {
+    Normal(f64, f64), Uniform(f64, f64), Exponential(f64), Gumbel(f64, f64), Pareto(f64, f64), Gamma(f64, f64), Beta(f64, f64),
+    ChiSquared(u64), T(f64), Poisson(f64), Binomial(u64, f64), DiscreteUniform(i64, i64), Bernoulli(f64),
+}
+impl D {
+    pub fn name(&self) -> &'static str {
+        match self { D::Normal(..) => "normal", D::Uniform(..) => "uniform", D::Exponential(..) => "exponential", D::Gumbel(..) => "gumbel", D::Pareto(..) => "pareto",
+            D::Gamma(..) => "gamma", D::Beta(..) => "beta", D::ChiSquared(..) => "chi_squared", D::T(..) => "t", D::Poisson(..) => "poisson", D::Binomial(..) => "binomial",
+            D::DiscreteUniform(..) => "discrete_uniform", D::Bernoulli(..) => "bernoulli" }
+    }
+    pub fn describe(&self) -> String {
+        match self {
+            D::Normal(a, b) => format!("Normal::new({:e}, {:e})", a, b), D::Uniform(a, b) => format!("Uniform::new({:e}, {:e})", a, b),
+            D::Exponential(a) => format!("Exponential::new({:e})", a), D::Gumbel(a, b) => format!("Gumbel::new({:e}, {:e})", a, b),
+            D::Pareto(a, b) => format!("Pareto::new({:e}, {:e})", a, b), D::Gamma(a, b) => format!("Gamma::new({:e}, {:e})", a, b),
+            D::Beta(a, b) => format!("Beta::new({:e}, {:e})", a, b), D::ChiSquared(k) => format!("ChiSquared::new({})", k), D::T(a) => format!("T::new({:e})", a),
+            D::Poisson(a) => format!("Poisson::new({:e})", a), D::Binomial(n, p) => format!("Binomial::new({}, {:e})", n, p),
+            D::DiscreteUniform(a, b) => format!("DiscreteUniform::new({}, {})", a, b), D::Bernoulli(p) => format!("Bernoulli::new({:e})", p),
+        }
+    }
+    pub fn build(&self) -> Box<dyn Distribution1D> {
+        match *self {
+            D::Normal(a, b) => Box::new(Normal::new(a, b)), D::Uniform(a, b) => Box::new(Uniform::new(a, b)), D::Exponential(a) => Box::new(Exponential::new(a)),
+            D::Gumbel(a, b) => Box::new(Gumbel::new(a, b)), D::Pareto(a, b) => Box::new(Pareto::new(a, b)), D::Gamma(a, b) => Box::new(Gamma::new(a, b)),
+            D::Beta(a, b) => Box::new(Beta::new(a, b)), D::ChiSquared(k) => Box::new(ChiSquared::new(k as usize)), D::T(a) => Box::new(T::new(a)),
+            D::Poisson(a) => Box::new(Poisson::new(a)), D::Binomial(n, p) => Box::new(Binomial::new(n, p)), D::DiscreteUniform(a, b) => Box::new(DiscreteUniform::new(a, b)),
+            D::Bernoulli(p) => Box::new(Bernoulli::new(p)),
+        }
+    }
+    pub fn discrete(&self) -> bool { matches!(self, D::Poisson(..) | D::Binomial(..) | D::DiscreteUniform(..) | D::Bernoulli(..)) }
+    /// a point mass (degenerate parameters): every draw must equal this value
+    pub fn atom(&self) -> Option<f64> {
+        match *self { D::Normal(m, s) if s == 0.0 => Some(m), D::Uniform(a, b) if a == b => Some(a), D::Binomial(n, p) if n == 0 || p == 0.0 => { let _ = n; Some(0.0) }
+            D::Binomial(n, p) if p == 1.0 => Some(n as f64), D::Bernoulli(p) if p == 0.0 => Some(0.0), D::Bernoulli(p) if p == 1.0 => Some(1.0), _ => None }
+    }
+    /// closed support (finite values only) and integrality for the discrete laws
+    pub fn in_support(&self, x: f64) -> bool {
+        if !x.is_finite() { return false; }
+        match *self {
+            D::Normal(..) | D::Gumbel(..) | D::T(..) => true,
+            D::Uniform(a, b) => a <= x && x <= b, D::Exponential(_) | D::Gamma(..) | D::ChiSquared(_) => x >= 0.0, D::Pareto(_, m) => x >= m,
+            D::Beta(..) => (0.0..=1.0).contains(&x), D::Poisson(_) => x >= 0.0 && x.fract() == 0.0, D::Binomial(n, _) => x >= 0.0 && x <= n as f64 && x.fract() == 0.0,
+            D::DiscreteUniform(a, b) => x >= a as f64 && x <= b as f64 && x.fract() == 0.0, D::Bernoulli(_) => x == 0.0 || x == 1.0,
+        }
+    }
+    /// the true CDF F(x) = P(X <= x), from the harness's own references
+    pub fn cdf(&self, x: f64) -> f64 {
+        match *self {
+            D::Normal(m, s) => norm_cdf((x - m) / s), D::Uniform(a, b) => ((x - a) / (b - a)).clamp(0.0, 1.0),
+            D::Exponential(l) => if x <= 0.0 { 0.0 } else { -(-l * x).exp_m1() }, D::Gumbel(m, b) => (-(-(x - m) / b).exp()).exp(),
+            D::Pareto(a, m) => if x <= m { 0.0 } else { 1.0 - (m / x).powf(a) }, D::Gamma(a, b) => gamma_p(a, b * x), D::Beta(a, b) => beta_i(a, b, x),
+            D::ChiSquared(k) => gamma_p(k as f64 / 2.0, x / 2.0), D::T(nu) => t_cdf(nu, x), D::Poisson(l) => poisson_cdf(l, x), D::Binomial(n, p) => binom_cdf(n, p, x),
+            D::DiscreteUniform(a, b) => { let k = x.floor(); if k < a as f64 { 0.0 } else if k >= b as f64 { 1.0 } else { (k - a as f64 + 1.0) / ((b - a) as f64 + 1.0) } }
+            D::Bernoulli(p) => if x < 0.0 { 0.0 } else if x < 1.0 { 1.0 - p } else { 1.0 },
+        }
+    }
+}
+
+/// run `f` on a fresh thread (alea's generator is thread-local: the thread seeds it itself); `None` = no answer within `secs`
+/// (the thread is left behind, the process ends when the oracle returns)
+fn watchdog<R: Send + 'static>(secs: f64, f: impl FnOnce() -> R + Send + 'static) -> Option<Result<R, String>> {
+    let (tx, rx) = mpsc::channel();
+    std::thread::Builder::new().stack_size(64 << 20).spawn(move || { let r = catch(f); let _ = tx.send(r); }).unwrap();
+    rx.recv_timeout(Duration::from_secs_f64(secs)).ok()
+}
+
+/// sup_x |F_n(x) - F(x)| for a sorted sample
+fn dkw_sup(sorted: &[f64], d: &D) -> (f64, f64) {
+    let n = sorted.len() as f64;
+    let mut worst = (0.0f64, 0.0f64);
+    if d.discrete() {
+        let mut i = 0usize;
+        while i < sorted.len() {
+            let v = sorted[i]; let mut j = i; while j < sorted.len() && sorted[j] == v { j += 1; }
+            let left = (i as f64 / n - d.cdf(v - 1.0)).abs();   // just below v: F_n = i/n, F = F(v - 1)
+            let at = (j as f64 / n - d.cdf(v)).abs();
+            if left > worst.0 { worst = (left, v - 1.0); }
+            if at > worst.0 { worst = (at, v); }
+            i = j;
+        }
+    } else {
+        for (i, &x) in sorted.iter().enumerate() {
+            let f = d.cdf(x);
+            let e = (f - i as f64 / n).abs().max(((i + 1) as f64 / n - f).abs());
+            if e > worst.0 { worst = (e, x); }
+        }
+    }
+    worst
+}
+fn dkw_eps(n: usize) -> f64 { ((2.0f64 / 1e-12).ln() / (2.0 * n as f64)).sqrt() }
+
+fn regimes(thorough: bool) -> Vec<D> {
+    let mut v = vec![
+        D::Normal(0.0, 1.0), D::Normal(5.0, 4.0), D::Normal(-3.0, 0.01), D::Normal(2.0, 0.0),
+        D::Uniform(0.0, 1.0), D::Uniform(-2.0, 6.0), D::Uniform(1e6, 1e6 + 1.0), D::Uniform(3.0, 3.0),
+        D::Exponential(0.01), D::Exponential(1.0), D::Exponential(5.0), D::Exponential(1e3),
+        D::Gumbel(0.0, 1.0), D::Gumbel(-3.0, 0.5), D::Gumbel(10.0, 20.0),
+        D::Pareto(4.0, 4.0), D::Pareto(1.0, 1.0), D::Pareto(0.5, 2.0), D::Pareto(10.0, 1e-3),
+        // gamma: shape < 1/3, < 1, >= 1
+        D::Gamma(0.1, 1.0), D::Gamma(0.2, 1.0), D::Gamma(0.3, 4.0), D::Gamma(1.0 / 3.0, 1.0), D::Gamma(0.4, 1.0), D::Gamma(0.5, 0.5), D::Gamma(0.9, 1.0),
+        D::Gamma(1.0, 1.0), D::Gamma(1.5, 0.01), D::Gamma(2.0, 4.0), D::Gamma(10.0, 1.0), D::Gamma(100.0, 3.0), D::Gamma(1e4, 1.0),
+        D::Beta(2.0, 4.0), D::Beta(0.5, 0.5), D::Beta(0.2, 3.0), D::Beta(3.0, 0.2), D::Beta(0.2, 0.2), D::Beta(1.0, 1.0), D::Beta(0.9, 50.0), D::Beta(100.0, 200.0),
+        D::ChiSquared(1), D::ChiSquared(2), D::ChiSquared(3), D::ChiSquared(5), D::ChiSquared(50),
+        D::T(1.0), D::T(1.5), D::T(0.5), D::T(2.0), D::T(3.0), D::T(10.0), D::T(100.0),
+        // Poisson: < 10 (multiplication), >= 10 (PTRS), >= 150 (beyond gamma's range)
+        D::Poisson(0.1), D::Poisson(1.0), D::Poisson(5.0), D::Poisson(9.99), D::Poisson(10.0), D::Poisson(12.0), D::Poisson(42.0), D::Poisson(150.0), D::Poisson(200.0),
+        D::Poisson(1e3), D::Poisson(1e5),
+        // binomial: inversion (n min(p,1-p) <= 30), BTPE (> 30), flipped (p > 0.5), degenerate
+        D::Binomial(15, 0.3), D::Binomial(70, 0.5), D::Binomial(10, 0.9), D::Binomial(1000, 0.03), D::Binomial(1000, 0.0301), D::Binomial(100, 0.31), D::Binomial(1000, 0.5),
+        D::Binomial(1000, 0.97), D::Binomial(1000, 0.6), D::Binomial(5, 0.0), D::Binomial(5, 1.0), D::Binomial(0, 0.5), D::Binomial(1, 0.5), D::Binomial(100000, 0.4),
+        D::Binomial(2147483647, 1.3900000000000002e-8), D::Binomial(3_000_000_000, 1e-8), D::Binomial(5_000_000_000, 0.25),
+        // a = b is excluded here: alea::i64_in_range asserts max > min (defect D11, owned by C19)
+        D::DiscreteUniform(0, 1), D::DiscreteUniform(-2, 6), D::DiscreteUniform(0, 99), D::DiscreteUniform(-5, -4), D::DiscreteUniform(0, 1 << 40),
+        D::Bernoulli(0.0), D::Bernoulli(1.0), D::Bernoulli(0.5), D::Bernoulli(0.75), D::Bernoulli(1e-3),
+    ];
+    if thorough {
+        v.extend([D::Gamma(0.25, 10.0), D::Gamma(0.7, 2.0), D::Gamma(3.3, 1.0), D::Beta(0.3, 0.7), D::Beta(5.0, 1.0), D::T(0.6), D::T(5.0), D::Poisson(20.0), D::Poisson(171.0),
+                  D::Poisson(500.0), D::Binomial(40, 0.75), D::Binomial(200, 0.2), D::Binomial(10_000, 0.003), D::ChiSquared(4), D::Exponential(0.3), D::Pareto(2.0, 3.0)]);
+    }
+    v
+}
+
+struct Sink { worst: std::collections::BTreeMap<String, (f64, String, String)>, tried: u64 }
+impl Sink {
+    fn fail(&mut self, class: String, sev: f64, what: String, input: String) {
+        let e = self.worst.entry(class).or_insert((-1.0, String::new(), String::new()));
+        if sev > e.0 { *e = (sev, what, input); }
+    }
+}
+
+/// the two seeds after which wyrand's state is 0 or equals its xor constant: the next u64() is 0, so f64() is exactly 0
+const ZERO_SEEDS: [u64; 2] = [0u64.wrapping_sub(0xa0761d6478bd642f), 0xe7037ed1a0b428dbu64.wrapping_sub(0xa0761d6478bd642f)];
+
+pub fn oracle(tier: &str, seed: u64) -> (u64, Vec<Finding>) {
+    let thorough = tier == "thorough";
+    let n: usize = if thorough { 4_000_000 } else { 200_000 };
+    let mut r = Rng::new(seed ^ 0xC03);
+    let mut sink = Sink { worst: Default::default(), tried: 0 };
+
+    // 0. the references themselves: incomplete gamma/beta against integration of the textbook densities
+    let bad = selftest();
+    if !bad.is_empty() { eprintln!("C03 oracle: reference CDF self-test failed:\n{}", bad.join("\n")); std::process::exit(4); }
+
+    // 1. every regime: termination, support, DKW band
+    let mut hung: std::collections::BTreeSet<&'static str> = Default::default();
+    for d in regimes(thorough) {
+        let sd = r.next();
+        let input = format!("alea::set_seed({}); {}.sample_n({})", sd, d.describe(), n);
+        if hung.contains(regime_tag(&d)) { continue; }
+        crumb(&input);
+        sink.tried += 1;
+        // probe: a few draws must come back quickly
+        let dd = d.clone();
+        match watchdog(3.0, move || { alea::set_seed(sd); let s = dd.build(); (0..50).map(|_| s.sample()).collect::<Vec<f64>>() }) {
+            None => { hung.insert(regime_tag(&d)); hung.insert(d.name());
+                sink.fail(format!("{}:nonterminating", d.name()), 1.0, "sampling did not return within 3 s for 50 draws (the property requires termination)".into(),
+                          format!("alea::set_seed({}); {}.sample()", sd, d.describe())); continue; }
+            Some(Err(e)) => { sink.fail(format!("{}:panic", d.name()), 1.0, format!("valid parameters, but sampling panicked: {}", e), input.clone()); continue; }
+            Some(Ok(_)) => {}
+        }
+        let dd = d.clone();
+        let limit = if thorough { 600.0 } else { 120.0 };
+        let xs = match watchdog(limit, move || { alea::set_seed(sd); dd.build().sample_n(n) }) {
+            None => { hung.insert(regime_tag(&d)); hung.insert(d.name()); sink.fail(format!("{}:nonterminating", d.name()), 1.0, format!("sample_n({}) did not return within {} s", n, limit), input.clone()); continue; }
+            Some(Err(e)) => { sink.fail(format!("{}:panic", d.name()), 1.0, format!("valid parameters, but sample_n panicked: {}", e), input.clone()); continue; }
+            Some(Ok(v)) => v,
+        };
+        sink.tried += n as u64;
+        if xs.len() != n { sink.fail("bulk:length".into(), 1.0, format!("sample_n({}) returned {} draws", n, xs.len()), input.clone()); continue; }
+        if let Some((i, x)) = xs.iter().enumerate().find(|(_, x)| !d.in_support(**x)) {
+            sink.fail(format!("{}:support", d.name()), 1.0, format!("draw #{} = {:e} is outside the support{}", i, x, if d.discrete() { " (or not an integer)" } else { "" }), input.clone());
+            continue;
+        }
+        if let Some(a) = d.atom() {
+            if let Some((i, x)) = xs.iter().enumerate().find(|(_, x)| **x != a) { sink.fail(format!("{}:degenerate", d.name()), 1.0, format!("point mass at {:e}, but draw #{} = {:e}", a, i, x), input.clone()); }
+            continue;
+        }
+        let mut s: Vec<f64> = xs.to_vec(); s.sort_by(|a, b| a.partial_cmp(b).unwrap());
+        let (sup, at) = dkw_sup(&s, &d); let eps = dkw_eps(n);
+        if !(sup <= eps) {
+            sink.fail(format!("{}:dkw", d.name()), sup / eps, format!("sup|F_n - F| = {:.5} at x = {:e} exceeds the DKW band {:.5} (n = {}, alpha = 1e-12): F_n = {:.5}, F = {:.5}", sup, at, eps, n,
+                      s.partition_point(|v| *v <= at) as f64 / n as f64, d.cdf(at)), input.clone());
+        }
+    }
+
+    // 2. draws on which the uniform variate is exactly 0 (seeds that make wyrand return 0 first)
+    for d in regimes(false) {
+        if hung.contains(d.name()) { continue; }
+        for &z in &ZERO_SEEDS {
+            let input = format!("alea::set_seed({}); {}.sample()", z, d.describe());
+            crumb(&input); sink.tried += 1;
+            let dd = d.clone();
+            match watchdog(3.0, move || { alea::set_seed(z); dd.build().sample() }) {
+                None => { hung.insert(d.name()); sink.fail(format!("{}:nonterminating", d.name()), 1.0, "did not return within 3 s when the first uniform variate is exactly 0".into(), input); }
+                Some(Err(e)) => sink.fail(format!("{}:panic", d.name()), 1.0, format!("panicked when the first uniform variate is exactly 0: {}", e), input),
+                Some(Ok(x)) => if !d.in_support(x) { sink.fail(format!("{}:support", d.name()), 2.0, format!("returned {:e}, outside the support, when alea::f64() returned exactly 0", x), input); }
+            }
+        }
+    }
+
+    // 3. binomial inversion with the uniform variate above the summed (rounded) mass: search seeds whose first f64() is within 2e-7 of 1
+    if !hung.contains("binomial") {
+        let cases: [(u64, f64); 2] = [(2147483647, 1.3900000000000002e-8), (2147483000, 1.3970000000000003e-8)];
+        let mut cand: Vec<(u64, f64)> = vec![];
+        let span: u64 = if thorough { 1_000_000_000 } else { 150_000_000 };
+        let base = r.next() & 0xffff_ffff;
+        for sd in base..base + span { alea::set_seed(sd); let u = alea::f64(); if u > 1.0 - 2e-7 { cand.push((sd, u)); if cand.len() >= 60 { break; } } }
+        'outer: for &(nn, p) in &cases {
+            for &(sd, u) in &cand {
+                let input = format!("alea::set_seed({}); Binomial::new({}, {:e}).sample()   [first uniform variate {:.17}]", sd, nn, p, u);
+                crumb(&input); sink.tried += 1;
+                match watchdog(2.0, move || { alea::set_seed(sd); Binomial::new(nn, p).sample() }) {
+                    None => { sink.fail("binomial:nonterminating".into(), 1.0, "inversion did not return within 2 s: the uniform variate exceeds the sum of the rounded mass terms and the loop runs past n".into(), input); break 'outer; }
+                    Some(Err(e)) => sink.fail("binomial:panic".into(), 1.0, format!("panicked: {}", e), input),
+                    Some(Ok(x)) => if !D::Binomial(nn, p).in_support(x) { sink.fail("binomial:support".into(), 1.0, format!("returned {:e}", x), input); }
+                }
+            }
+        }
+    }
+
+    // 4. bulk shapes
+    let shapes_d = [D::Normal(0.0, 1.0), D::Gamma(0.5, 1.0), D::Poisson(12.0), D::Bernoulli(0.3)];
+    for d in shapes_d.iter() {
+        if hung.contains(d.name()) { continue; }
+        let dd = d.clone();
+        let res = watchdog(60.0, move || {
+            let s = dd.build(); let mut bad: Vec<String> = vec![];
+            for k in (0..=70usize).chain([100, 1000, 4097]) { let v = s.sample_n(k); if v.len() != k { bad.push(format!("sample_n({}) has length {}", k, v.len())); } }
+            for rr in 1..=9usize { for cc in 1..=9usize { let m = s.sample_matrix(rr, cc); if m.shape() != [rr, cc] || m.data().len() != rr * cc { bad.push(format!("sample_matrix({}, {}) has shape {:?} and {} elements", rr, cc, m.shape(), m.data().len())); } } }
+            bad });
+        sink.tried += 74 + 81;
+        match res {
+            Some(Ok(b)) => for w in b { sink.fail("bulk:shape".into(), 1.0, w, d.describe()); },
+            Some(Err(e)) => sink.fail("bulk:panic".into(), 1.0, format!("bulk sampling panicked: {}", e), d.describe()),
+            None => sink.fail(format!("{}:nonterminating", d.name()), 1.0, "bulk sampling did not return within 60 s".into(), d.describe()),
+        }
+    }
+
+    // 5. multivariate normal: whitened coordinates and random projections are standard normal (DKW), shape of sample_n
+    let nm = if thorough { 1_000_000 } else { 100_000 };
+    for &dim in &[1usize, 2, 3, 5] {
+        // covariance = A A^T + diag, mean arbitrary
+        let a: Vec<f64> = (0..dim * dim).map(|_| r.uniform(-1.5, 1.5)).collect();
+        let mut cov = vec![0.0; dim * dim];
+        for i in 0..dim { for j in 0..dim { let mut s = 0.0; for k in 0..dim { s += a[i * dim + k] * a[j * dim + k]; } cov[i * dim + j] = s + if i == j { 0.5 } else { 0.0 }; } }
+        for i in 0..dim { for j in 0..i { cov[i * dim + j] = cov[j * dim + i]; } }
+        let mu: Vec<f64> = (0..dim).map(|_| r.uniform(-5.0, 5.0)).collect();
+        let sd = r.next();
+        let input = format!("alea::set_seed({}); MVN::new({:?}, Matrix::new({:?}, {}, {})).sample_n({})", sd, mu, cov, dim, dim, nm);
+        crumb(&input); sink.tried += nm as u64;
+        let (mu2, cov2) = (mu.clone(), cov.clone());
+        let res = watchdog(300.0, move || { alea::set_seed(sd); let m = MVN::new(Vector::new(mu2), Matrix::new(cov2, dim as i32, dim as i32)); let s = m.sample_n(nm); (s.shape(), s.data().to_vec(), m.sample().to_vec()) });
+        let (shape, data, one) = match res { Some(Ok(x)) => x, Some(Err(e)) => { sink.fail("mvn:panic".into(), 1.0, format!("panicked: {}", e), input); continue; }
+            None => { sink.fail("mvn:nonterminating".into(), 1.0, "no return within 300 s".into(), input); continue; } };
+        if shape != [nm, dim] || data.len() != nm * dim || one.len() != dim { sink.fail("bulk:shape".into(), 1.0, format!("MVN sample_n({}) has shape {:?} ({} elements), sample() has length {}", nm, shape, data.len(), one.len()), input.clone()); continue; }
+        if data.iter().any(|x| !x.is_finite()) { sink.fail("mvn:support".into(), 1.0, "a draw has a non-finite coordinate".into(), input.clone()); continue; }
+        // own Cholesky factor (textbook), forward substitution
+        let mut l = vec![0.0; dim * dim];
+        for i in 0..dim { for j in 0..=i { let mut s = cov[i * dim + j]; for k in 0..j { s -= l[i * dim + k] * l[j * dim + k]; } l[i * dim + j] = if i == j { s.sqrt() } else { s / l[j * dim + j] }; } }
+        let eps = dkw_eps(nm);
+        let std_norm = D::Normal(0.0, 1.0);
+        let mut white: Vec<Vec<f64>> = vec![Vec::with_capacity(nm); dim];
+        for row in data.chunks(dim) {
+            let mut z = vec![0.0; dim];
+            for i in 0..dim { let mut s = row[i] - mu[i]; for k in 0..i { s -= l[i * dim + k] * z[k]; } z[i] = s / l[i * dim + i]; }
+            for i in 0..dim { white[i].push(z[i]); }
+        }
+        for (i, w) in white.iter_mut().enumerate() {
+            w.sort_by(|a, b| a.partial_cmp(b).unwrap());
+            let (sup, at) = dkw_sup(w, &std_norm);
+            if !(sup <= eps) { sink.fail("mvn:whitened-dkw".into(), sup / eps, format!("whitened coordinate {} is not standard normal: sup|F_n - Phi| = {:.5} at {:e} > {:.5}", i, sup, at, eps), input.clone()); }
+        }
+        for _ in 0..(if thorough { 12 } else { 4 }) {
+            let dir: Vec<f64> = (0..dim).map(|_| r.uniform(-1.0, 1.0)).collect();
+            let mut var = 0.0; for i in 0..dim { for j in 0..dim { var += dir[i] * cov[i * dim + j] * dir[j]; } }
+            let sdv = var.sqrt(); if !(sdv > 1e-6) { continue; }
+            let mut pr: Vec<f64> = data.chunks(dim).map(|row| (0..dim).map(|i| dir[i] * (row[i] - mu[i])).sum::<f64>() / sdv).collect();
+            pr.sort_by(|a, b| a.partial_cmp(b).unwrap());
+            let (sup, at) = dkw_sup(&pr, &std_norm);
+            if !(sup <= eps) { sink.fail("mvn:projection-dkw".into(), sup / eps, format!("projection on {:?} is not standard normal after scaling: sup|F_n - Phi| = {:.5} at {:e} > {:.5}", dir, sup, at, eps), input.clone()); }
+        }
+    }
+
+    let out = sink.worst.into_iter().map(|(class, (_, what, input))| Finding { class, what, input }).collect();
+    (sink.tried, out)
+}
+
+// ------------------------------------------------------------------------------------------------------------
+// correspondence cases
+// ------------------------------------------------------------------------------------------------------------
+/// one implementation run on a worker thread (alea's generator and the libm recorder are thread-local), with a wall-clock guard:
+/// `None` = no answer within 3 s (a hang is the failing behaviour; the case then records an outcome no model run can equal)
+fn run_case(f: impl FnOnce() -> Vec<f64> + Send + 'static) -> (libm::Table, Tm, bool) {
+    match watchdog(3.0, move || { libm::start(); let r = catch(f); let t = libm::stop(); (r, t) }) {
+        Some(Ok((r, t))) => (t, outcome_list(&r), false),
+        Some(Err(_)) => (libm::Table::default(), Tm::Raw("Panic".into()), false),
+        None => (libm::Table::default(), Tm::Raw("(Val [nan; nan; nan; nan; nan; nan; nan; nan; nan; nan; nan; nan])".into()), true),
+    }
+}
+
+fn dist_term(d: &D) -> Tm {
+    match *d {
+        D::Normal(a, b) => app("DNormal", vec![Tm::F(a), Tm::F(b)]), D::Uniform(a, b) => app("DUniform", vec![Tm::F(a), Tm::F(b)]),
+        D::Exponential(a) => app("DExponential", vec![Tm::F(a)]), D::Gumbel(a, b) => app("DGumbel", vec![Tm::F(a), Tm::F(b)]),
+        D::Pareto(a, b) => app("DPareto", vec![Tm::F(a), Tm::F(b)]), D::Gamma(a, b) => app("DGamma", vec![Tm::F(a), Tm::F(b)]),
+        D::Beta(a, b) => app("DBeta", vec![Tm::F(a), Tm::F(b)]), D::ChiSquared(k) => app("DChiSquared", vec![Tm::N(k)]), D::T(a) => app("DT", vec![Tm::F(a)]),
+        D::Poisson(a) => app("DPoisson", vec![Tm::F(a)]), D::Binomial(n, p) => app("DBinomial", vec![Tm::N(n), Tm::F(p)]),
+        D::DiscreteUniform(a, b) => app("DDiscreteUniform", vec![Tm::Z(a), Tm::Z(b)]), D::Bernoulli(p) => app("DBernoulli", vec![Tm::F(p)]),
+    }
+}
+
+/// which regime of its algorithm a distribution is in (tag of the case), and whether it leaves the default path
+fn regime_tag(d: &D) -> &'static str {
+    match *d {
+        D::Normal(..) => "normal/ziggurat", D::Uniform(..) => "uniform", D::Exponential(_) => "exponential", D::Gumbel(..) => "gumbel", D::Pareto(..) => "pareto",
+        D::Gamma(a, _) => if a < 1.0 / 3.0 { "gamma/shape<1/3" } else if a < 1.0 { "gamma/shape<1" } else { "gamma/shape>=1" },
+        D::Beta(a, b) => if a < 1.0 || b < 1.0 { "beta/boosted" } else { "beta/direct" }, D::ChiSquared(k) => if k == 1 { "chi_squared/dof=1" } else { "chi_squared/dof>=2" },
+        D::T(nu) => if nu < 2.0 { "t/dof<2" } else { "t/dof>=2" }, D::Poisson(l) => if l < 10.0 { "poisson/mult" } else if l < 150.0 { "poisson/ptrs" } else { "poisson/ptrs>=150" },
+        D::Binomial(n, p) => { let q = if p > 0.5 { 1.0 - p } else { p };
+            if n == 0 || p == 0.0 || (p - 1.0).abs() <= f64::EPSILON { "binomial/degenerate" } else if q * n as f64 <= 30.0 { if p > 0.5 { "binomial/inversion-flipped" } else { "binomial/inversion" } }
+            else if p > 0.5 { "binomial/btpe-flipped" } else { "binomial/btpe" } }
+        D::DiscreteUniform(..) => "discrete_uniform", D::Bernoulli(p) => if p == 0.0 || p == 1.0 { "bernoulli/degenerate" } else { "bernoulli" },
+    }
+}
+
+fn random_dist(r: &mut Rng) -> D {
+    let lg = |r: &mut Rng, lo: f64, hi: f64| (r.uniform(lo.ln(), hi.ln())).exp();
+    match r.below(30) {
+        0 | 1 => D::Normal(r.uniform(-10.0, 10.0), if r.coin(0.1) { 0.0 } else { lg(r, 1e-3, 1e3) }),
+        2 => D::Uniform(r.uniform(-10.0, 0.0), r.uniform(0.0, 10.0)),
+        3 => D::Exponential(lg(r, 1e-3, 1e3)),
+        4 => D::Gumbel(r.uniform(-10.0, 10.0), lg(r, 1e-2, 1e2)),
+        5 => D::Pareto(lg(r, 0.1, 20.0), lg(r, 1e-3, 1e3)),
+        6 => D::Gamma(r.uniform(0.01, 1.0 / 3.0), lg(r, 1e-2, 1e2)),
+        7 => D::Gamma(r.uniform(1.0 / 3.0, 1.0), lg(r, 1e-2, 1e2)),
+        8 | 9 => D::Gamma(lg(r, 1.0, 1e4), lg(r, 1e-2, 1e2)),
+        10 => D::Gamma(*r.pick(&[1.0, 1.0 / 3.0, 0.5, 2.0]), 1.0),
+        11 => D::Beta(lg(r, 0.05, 5.0), lg(r, 0.05, 5.0)),
+        12 => D::Beta(lg(r, 1.0, 100.0), lg(r, 1.0, 100.0)),
+        13 => { let m = if r.coin(0.5) { 4 } else { 60 }; D::ChiSquared(1 + r.below(m)) }
+        14 => D::T(lg(r, 0.3, 2.0)),
+        15 => D::T(lg(r, 2.0, 200.0)),
+        16 | 17 => D::Poisson(lg(r, 0.05, 10.0)),
+        18 | 19 => D::Poisson(lg(r, 10.0, 150.0)),
+        20 => D::Poisson(lg(r, 150.0, 1e6)),
+        21 | 22 => { let n = 1 + r.below(2000); D::Binomial(n, (r.uniform(0.0, 30.0) / n as f64).min(1.0)) }                // inversion (possibly flipped below)
+        23 | 24 => { let n = 70 + r.below(100000); let p = r.uniform(31.0 / n as f64, 0.5); D::Binomial(n, if r.coin(0.4) { 1.0 - p } else { p }) } // BTPE
+        25 => { let n = 1 + r.below(500); D::Binomial(n, 1.0 - r.uniform(0.0, 30.0f64.min(n as f64 * 0.45)) / n as f64) }    // flipped inversion
+        26 => D::Binomial(*r.pick(&[0u64, 1, 5, 1000, 3_000_000_000]), *r.pick(&[0.0, 1.0, 0.5, 1e-9, 1.0 - 1e-16, 0.9999999999999998])),
+        27 => { let a = r.range(-1000, 1000); let m = if r.coin(0.5) { 10 } else { 1 << 40 }; D::DiscreteUniform(a, a + 1 + r.below(m) as i64) }
+        28 => D::Bernoulli(if r.coin(0.3) { *r.pick(&[0.0, 1.0]) } else { r.unit() }),
+        _ => D::DiscreteUniform(r.range(-(1 << 62), 0), r.range(1, 1 << 62)),
+    }
+}
+
+fn malformed(r: &mut Rng) -> D {
+    match r.below(14) {
+        0 => D::Normal(0.0, -r.uniform(0.1, 3.0)), 1 => D::Uniform(2.0, r.uniform(-3.0, 1.9)), 2 => D::Exponential(-r.unit()), 3 => D::Gumbel(1.0, *r.pick(&[0.0, -1.0])),
+        4 => D::Pareto(*r.pick(&[0.0, -1.0, 2.0]), *r.pick(&[0.0, -2.0])), 5 => D::Gamma(*r.pick(&[0.0, -1.0, 1.0]), *r.pick(&[0.0, -3.0])), 6 => D::Beta(0.0, 1.0), 7 => D::Beta(1.0, -1.0),
+        8 => D::ChiSquared(0), 9 => D::T(*r.pick(&[0.0, -2.5])), 10 => D::Poisson(*r.pick(&[0.0, -1.0])), 11 => D::Binomial(5, *r.pick(&[-0.1, 1.5, f64::NAN])),
+        12 => D::DiscreteUniform(3, r.range(-5, 2)), _ => D::Bernoulli(*r.pick(&[-0.5, 1.000001, f64::NAN])),
+    }
+}
+
+pub fn gen(tier: &str, seed: u64, outdir: &str) {
+    let thorough = tier == "thorough";
+    let mut r = Rng::new(seed ^ 0x9C03);
+    let mut cs = Cases::new("C03");
+    let k = if thorough { 12 } else { 1 };
+    // a regime in which one case did not return is recorded once (as a case no model run can equal) and then skipped: every such run leaves a spinning thread behind
+    let hung: std::cell::RefCell<std::collections::HashSet<&'static str>> = Default::default();
+    let push_draws = |cs: &mut Cases, d: &D, sd: u64, cnt: usize, tag_override: Option<&str>| {
+        if hung.borrow().contains(regime_tag(d)) { return; }
+        let dd = d.clone();
+        let (t, e, timed_out) = run_case(move || { alea::set_seed(sd); let s = dd.build(); s.sample_n(cnt).to_vec() });
+        let tag = tag_override.unwrap_or(regime_tag(d));
+        if timed_out { hung.borrow_mut().insert(regime_tag(d)); }
+        cs.push(app("CDraws", vec![libm_table(&t), dist_term(d), Tm::N(sd), Tm::Nat(cnt as u64), e]), tag, cnt >= 2);
+    };
+    // the oracle's regime grid, a few draws each
+    for d in regimes(thorough) {
+        if let D::Binomial(n, _) = d { if n > 1 << 33 { continue; } }
+        let sd = r.next(); push_draws(&mut cs, &d, sd, 6, None);
+    }
+    // random parameters in every regime
+    for _ in 0..260 * k { let d = random_dist(&mut r); let sd = r.next(); let cnt = 1 + r.below(8) as usize; push_draws(&mut cs, &d, sd, cnt, None); }
+    // the seeds on which the first uniform variate is exactly 0, and small seeds
+    for d in [D::Exponential(2.0), D::Gumbel(1.0, 2.0), D::Pareto(3.0, 2.0), D::Uniform(-1.0, 1.0), D::Bernoulli(0.5), D::Poisson(3.0), D::Poisson(30.0), D::Binomial(20, 0.3), D::Gamma(0.5, 1.0), D::Normal(0.0, 1.0)] {
+        for &z in &ZERO_SEEDS { push_draws(&mut cs, &d, z, 3, Some("zero-uniform-variate")); }
+        for sd in [0u64, 1, 2, u64::MAX] { push_draws(&mut cs, &d, sd, 2, None); }
+    }
+    // binomial inversion with a uniform variate above the summed mass (reaches the x < n bound)
+    { let mut found = 0; let base = r.next() & 0xffff_ffff;
+      for sd in base..base + 400_000_000 { alea::set_seed(sd); if alea::f64() > 1.0 - 4e-8 { push_draws(&mut cs, &D::Binomial(2147483647, 1.3900000000000002e-8), sd, 1, Some("binomial/inversion-capped-at-n")); found += 1; if found >= 3 { break; } } } }
+    // ziggurat: seeds whose first word lands in the tail layer (i = 127, j >= K[127]), in a wedge (i < 127, j >= K[i]), in layer 0 (K[0] = 0)
+    { let (mut tail, mut wedge, mut top) = (0, 0, 0); let base = r.next() & 0xffff_ffff;
+      for sd in base..base + 50_000_000 {
+          alea::set_seed(sd); let u = alea::u64(); let (i, j) = ((u & 0x7F) as usize, ((u >> 8) & 0xFFFFFF) as u32);
+          // thresholds read from the implementation's behaviour, not from its tables: a slow-path draw consumes more than one word
+          if i == 127 && j >= 15_600_000 && tail < 6 * k { tail += 1; push_draws(&mut cs, &D::Normal(r.uniform(-2.0, 2.0), 1.5), sd, 2, Some("normal/ziggurat-tail-layer")); }
+          else if i == 0 && top < 3 * k { top += 1; push_draws(&mut cs, &D::Normal(0.0, 1.0), sd, 2, Some("normal/ziggurat-layer0")); }
+          else if i > 0 && i < 127 && j >= 16_640_000 && wedge < 12 * k { wedge += 1; push_draws(&mut cs, &D::Normal(1.0, 0.5), sd, 2, Some("normal/ziggurat-wedge")); }
+          if tail >= 6 * k && wedge >= 12 * k && top >= 3 * k { break; } } }
+    // malformed parameters: the constructor panics
+    for _ in 0..40 * k { let d = malformed(&mut r); let sd = r.next(); push_draws(&mut cs, &d, sd, 1, Some("malformed")); }
+    // zero draws
+    for d in [D::Normal(0.0, 1.0), D::Poisson(4.0)] { push_draws(&mut cs, &d, 7, 0, Some("sample_n(0)")); }
+
+    // sample_matrix
+    for _ in 0..30 * k {
+        let d = random_dist(&mut r); let sd = r.next(); let (rr, cc) = (r.below(5) as usize, r.below(5) as usize);
+        if hung.borrow().contains(regime_tag(&d)) { continue; }
+        let dd = d.clone();
+        let (t, e, timed_out) = run_case(move || { alea::set_seed(sd); let m = dd.build().sample_matrix(rr, cc); let mut v = vec![m.nrows as f64, m.ncols as f64]; v.extend(m.data().iter()); v });
+        if timed_out { hung.borrow_mut().insert(regime_tag(&d)); }
+        cs.push(app("CMatrix", vec![libm_table(&t), dist_term(&d), Tm::N(sd), Tm::Nat(rr as u64), Tm::Nat(cc as u64), e]), "sample_matrix", rr * cc >= 2);
+    }
+    // MVN: mean + L z, with L the crate's own Cholesky factor of the covariance (recorded sub-call: C11 owns it)
+    for i in 0..30 * k {
+        let dim = 1 + r.below(5) as usize; let nn = r.below(4) as usize; let sd = r.next();
+        let a: Vec<f64> = (0..dim * dim).map(|_| r.uniform(-1.5, 1.5)).collect();
+        let mut cov = vec![0.0; dim * dim];
+        for i in 0..dim { for j in 0..=i { let mut s = 0.0; for kk in 0..dim { s += a[i * dim + kk] * a[j * dim + kk]; } cov[i * dim + j] = s + if i == j { 0.5 } else { 0.0 }; cov[j * dim + i] = cov[i * dim + j]; } }
+        let mu: Vec<f64> = (0..(if i % 10 == 9 { dim + 1 } else { dim })).map(|_| r.uniform(-5.0, 5.0)).collect();
+        let lfac = catch(|| Matrix::new(cov.clone(), dim as i32, dim as i32).cholesky().data().to_vec());
+        let lfac = match lfac { Ok(l) => l, Err(_) => continue };
+        let (mu2, cov2) = (mu.clone(), cov.clone());
+        let (t, e, _) = run_case(move || { alea::set_seed(sd); let m = MVN::new(Vector::new(mu2), Matrix::new(cov2, dim as i32, dim as i32));
+            let one = m.sample().to_vec(); let s = m.sample_n(nn); let mut v = one; v.push(s.nrows as f64); v.push(s.ncols as f64); v.extend(s.data().iter()); v });
+        cs.push(app("CMvn", vec![libm_table(&t), fl(&mu), fl(&lfac), Tm::Nat(dim as u64), Tm::N(sd), Tm::Nat(nn as u64), e]), if mu.len() != dim { "mvn/malformed" } else { "mvn" }, dim >= 2);
+    }
+    // ln_gamma (added next to gamma for the Poisson sampler)
+    let mut xs: Vec<f64> = (1..=60).map(|i| i as f64).collect();
+    for _ in 0..150 * k { xs.push((r.uniform((0.5f64).ln(), (1e7f64).ln())).exp()); }
+    for _ in 0..40 * k { xs.push(r.uniform(-20.0, 0.5)); }
+    xs.extend([0.5, 0.49999999999999994, 171.0, 172.0, 1e300, f64::INFINITY, 0.0, -1.0, f64::NAN]);
+    for x in xs {
+        libm::start(); let res = catch(|| compute::functions::ln_gamma(x)); let t = libm::stop();
+        cs.push(app("CLnGamma", vec![libm_table(&t), Tm::F(x), outcome_list(&res.map(|v| vec![v]))]), if x < 0.5 { "ln_gamma/reflection" } else { "ln_gamma/direct" }, x != 1.0 && x != 2.0);
+    }
+    cs.write(outdir, 120, "after alea::set_seed(seed): the first k draws (k = 0..8) of every distribution over the oracle's regime grid and over random parameters in every algorithm branch (gamma shape < 1/3, < 1, >= 1 and beta / chi-squared / t built on it; Poisson multiplication / PTRS / PTRS beyond 150; binomial inversion / BTPE / flipped / degenerate / n >= 2^31; ziggurat fast path, wedge and tail as the seeds reach them), the two seeds that make the first uniform variate exactly 0, seeds 0, 1, 2, 2^64-1, seeds whose first variate exceeds the summed binomial mass (loop bound x < n), invalid parameters (constructor panics), sample_matrix shapes 0..4 x 0..4, MVN sample and sample_n for dimensions 1..5 (Cholesky factor recorded from the crate's own routine), ln_gamma on integers, log-uniform (0.5, 1e7), the reflection branch and specials; every case carries the libm calls made (exp, ln, log1p, pow, floor, sin); non-trivial = at least two draws (the generator state is threaded through) or dimension >= 2; distinct by hash of the case term");
+}
